@@ -586,6 +586,7 @@ let handle (line : string) : string =
           | "PG" -> let h = next_n t in let _ = next t in let _ = next t in apply_peer !sel (Peer h)
           | "PT" -> let _ = next t in let _ = next t in ()
           | "B" -> let _ = next t in apply_peer !sel PeerBad
+          | "HR" -> ()     (* handle() dropped while idle and called again: the connection's state is in the client object *)
           | "H" -> held := Some (ref [])
           | "U" -> (match !held with
                     | Some l -> held := None;
